@@ -1,4 +1,5 @@
 import Rdpgw.Oracle.Tunnel
+import Rdpgw.Oracle.Policy
 
 /-!
 # rdpgw_oracle — line-protocol driver for the executable models
@@ -24,6 +25,10 @@ def dispatch (line : String) : String :=
     | "redir" => cmdRedir m
     | "utf16" => cmdUtf16 m
     | "matchauth" => cmdMatchAuth m
+    | "checkhost" => cmdCheckHost m
+    | "installed" => cmdInstalled m
+    | "clientaddr" => cmdClientAddr m
+    | "cookie" => cmdCookie m
     | _ => "bad-op"
 
 partial def loop (h : IO.FS.Stream) (out : IO.FS.Stream) : IO Unit := do
